@@ -25,7 +25,7 @@ type Config struct {
 	Workers        int
 	SamplePaths    int // number of complete paths whose model is recorded
 	StopAtFirst    bool
-	CrossEvery     int // record every n-th feasibility query for cross-solver re-checking (0 = off)
+	CrossEvery     int  // record every n-th feasibility query for cross-solver re-checking (0 = off)
 	Merge          bool // enable region merging (if-conversion); off by default: merging the translate switch of a generated parser makes everything downstream symbolic
 	Deadline       time.Time
 }
